@@ -173,4 +173,6 @@ def augment(
             AugmentedMDP.action_list = action_list
         else:
             AugmentedMDP.action_list = mdp.action_list
-    return AugmentedMDP()
+    augmented_mdp = AugmentedMDP()
+    augmented_mdp.discount_rate = mdp.discount_rate
+    return augmented_mdp
